@@ -2,6 +2,8 @@ import json
 import re
 from io import IOBase
 from typing import Any
+from typing import Mapping
+from typing import Sequence
 
 _RE_PROBABLY_MALFORMED = re.compile(r"[\{\}\[\]]")
 
@@ -19,3 +21,30 @@ def load_data(data: object) -> Any:
     if isinstance(data, IOBase):
         return json.loads(data.read())
     return data
+
+
+def json_equal(left: object, right: object) -> bool:
+    """Return `True` if _left_ and _right_ are equal JSON values.
+
+    This is like `==`, but a Boolean is never equal to a number, not even
+    inside arrays and objects. Remember 1 == True and 0 == False in Python.
+    """
+    if isinstance(left, bool) or isinstance(right, bool):
+        return isinstance(left, bool) and isinstance(right, bool) and left == right
+
+    if isinstance(left, Mapping):
+        return (
+            isinstance(right, Mapping)
+            and len(left) == len(right)
+            and all(k in right and json_equal(v, right[k]) for k, v in left.items())
+        )
+
+    if isinstance(left, Sequence) and not isinstance(left, str):
+        return (
+            isinstance(right, Sequence)
+            and not isinstance(right, str)
+            and len(left) == len(right)
+            and all(json_equal(a, b) for a, b in zip(left, right))
+        )
+
+    return left == right
